@@ -8,6 +8,7 @@ import (
 	"crypto/rsa"
 	"encoding/binary"
 
+	"github.com/gopcua/opcua/errors"
 	"github.com/gopcua/opcua/ua"
 	"github.com/gopcua/opcua/uapolicy"
 )
@@ -22,7 +23,10 @@ func (s *SecureChannel) NewSessionSignature(cert, nonce []byte) ([]byte, string,
 	if err != nil {
 		return nil, "", err
 	}
-	remoteKey := remoteX509Cert.PublicKey.(*rsa.PublicKey)
+	remoteKey, ok := remoteX509Cert.PublicKey.(*rsa.PublicKey)
+	if !ok {
+		return nil, "", errors.Errorf("uasc: certificate does not carry an RSA public key")
+	}
 
 	enc, err := uapolicy.Asymmetric(s.cfg.SecurityPolicyURI, s.cfg.LocalKey, remoteKey)
 	if err != nil {
@@ -48,7 +52,10 @@ func (s *SecureChannel) VerifySessionSignature(cert, nonce, signature []byte) er
 	if err != nil {
 		return err
 	}
-	remoteKey := remoteX509Cert.PublicKey.(*rsa.PublicKey)
+	remoteKey, ok := remoteX509Cert.PublicKey.(*rsa.PublicKey)
+	if !ok {
+		return errors.Errorf("uasc: certificate does not carry an RSA public key")
+	}
 
 	enc, err := uapolicy.Asymmetric(s.cfg.SecurityPolicyURI, s.cfg.LocalKey, remoteKey)
 	if err != nil {
@@ -77,7 +84,10 @@ func (s *SecureChannel) EncryptUserPassword(policyURI, password string, cert, no
 	if err != nil {
 		return nil, "", err
 	}
-	remoteKey := remoteX509Cert.PublicKey.(*rsa.PublicKey)
+	remoteKey, ok := remoteX509Cert.PublicKey.(*rsa.PublicKey)
+	if !ok {
+		return nil, "", errors.Errorf("uasc: certificate does not carry an RSA public key")
+	}
 
 	enc, err := uapolicy.Asymmetric(policyURI, s.cfg.LocalKey, remoteKey)
 	if err != nil {
@@ -114,7 +124,10 @@ func (s *SecureChannel) NewUserTokenSignature(policyURI string, cert, nonce []by
 	if err != nil {
 		return nil, "", err
 	}
-	remoteKey := remoteX509Cert.PublicKey.(*rsa.PublicKey)
+	remoteKey, ok := remoteX509Cert.PublicKey.(*rsa.PublicKey)
+	if !ok {
+		return nil, "", errors.Errorf("uasc: certificate does not carry an RSA public key")
+	}
 
 	enc, err := uapolicy.Asymmetric(policyURI, s.cfg.UserKey, remoteKey)
 	if err != nil {
